@@ -72,7 +72,9 @@ func namedLayouts() []named {
 			Ok      bool               `uhppote:"offset:30"`
 			Delay   uint16             `uhppote:"offset:62"`
 		}
-		return named{"message/C", func() (any, any) { return &message{Serial: 1, Door: 4, Card: 8165538, Ok: true, Delay: 0xa1b2}, &message{} }, func() []byte {
+		return named{"message/C", func() (any, any) {
+			return &message{Serial: 1, Door: 4, Card: 8165538, Ok: true, Delay: 0xa1b2}, &message{}
+		}, func() []byte {
 			b := make([]byte, 64)
 			b[0], b[1] = 0x17, 130
 			le32(b, 12, 1)
